@@ -203,22 +203,24 @@ def random_cases(ctx, n, start_cid, maxobjs):
         custom, objs = {}, []
         api = rng.choice([1, 2, 3, 3, 4, 5, 6, 6])
         deltify = rng.randint(0, 1) if api not in (4, 5) else 0
-        # both delta encoders of dulwich take minutes on unrelated large objects (byte-level Myers diff / difflib):
-        # where deltas are searched, everything above 1500 bytes comes from one stream
+        # Both delta encoders of dulwich are quadratic (byte-level Myers diff in Rust, difflib in Python): an unrelated
+        # 2 KiB object next to a 256 KiB one costs minutes.  Where deltas are searched (deltify, or the container pack of
+        # write_pack_from_container) a case is therefore either "prefixes": any size, every blob a prefix of one stream,
+        # or "small": sizes up to 2000 bytes, several streams, edits in the middle.
         searching = bool(deltify) or api == 6
-        nfam = rng.randint(1, 3)
+        prefixes = searching and rng.random() < 0.5
+        nfam = 1 if prefixes else rng.randint(1, 3)
         fams = [(rng.randint(1, 10 ** 6), rng.choice(["rand", "text"])) for _ in range(nfam)]
         for j in range(nobj):
             if rng.random() < 0.2:
                 objs.append(rng.choice([1, 2, 3, 11, 12, 13, 14, 15]))
                 continue
-            f = rng.randrange(nfam)
-            seed, kind = fams[f]
+            seed, kind = fams[rng.randrange(nfam)]
             size = int(2 ** rng.uniform(0, 18.1)) if rng.random() < 0.8 else rng.choice([0, 15, 16, 2047, 2048, 65535, 65536, 65537])
-            if searching and f != 0 and size > 1500:
-                size = rng.randint(0, 1500)
+            if searching and not prefixes:
+                size = size % 2001
             recipe = [[kind, seed, size]]
-            if rng.random() < 0.5 and size > 8:
+            if rng.random() < 0.5 and size > 8 and not prefixes:
                 cut = rng.randrange(size)
                 recipe = [["slice", recipe, 0, cut], ["hex", "%08x" % rng.getrandbits(32)], ["slice", recipe, cut, size]]
                 size += 4
@@ -478,15 +480,17 @@ def run(ctx):
     vdump = os.path.join(ctx.scratch, "varint")
     idump = os.path.join(ctx.scratch, "idx")
     gdump = os.path.join(ctx.scratch, "gitsc")
-    wplan = ([("q", "PackFmtWriter_q.cfg", 13), ("q3", "PackFmtWriter_q3.cfg", 13), ("dup", "PackFmtWriter_dup.cfg", 6)] if quick else
-             [("t3", "PackFmtWriter_t3.cfg", 6), ("t4", "PackFmtWriter_t4.cfg", 9), ("rows", "PackFmtWriter_rows.cfg", 13),
-              ("q", "PackFmtWriter_q.cfg", 3), ("dup", "PackFmtWriter_dup.cfg", 1)])
+    wplan = ([("q", "PackFmtWriter_q.cfg", 9), ("q3", "PackFmtWriter_q3.cfg", 9), ("dup", "PackFmtWriter_dup.cfg", 4)] if quick else
+             [("t3", "PackFmtWriter_t3.cfg", 5), ("t4", "PackFmtWriter_t4.cfg", 6), ("rows", "PackFmtWriter_rows.cfg", 10),
+              ("q", "PackFmtWriter_q.cfg", 2), ("dup", "PackFmtWriter_dup.cfg", 1)])
     futs = {}
     for nm, static, mod in wplan:
         cfg = cfg_with(ctx, static, EmitMod=mod, EmitRes=seed % mod)
         futs["writer-" + nm] = tlc_job("PackFmtWriter[" + static[14:-4] + "]", "PackFmtWriter.tla", cfg, 3 if quick else 4)
     futs["varint"] = tlc_job("PackFmtVarint", "PackFmtVarint.tla", ctx.pick("PackFmtVarint_q.cfg", "PackFmtVarint_t.cfg"), 2, dump_states=vdump)
-    futs["idx"] = tlc_job("PackFmtIdx", "PackFmtIdx.tla", ctx.pick("PackFmtIdx_q.cfg", "PackFmtIdx_t.cfg"), 2, dump_states=idump)
+    iplan = [("idx", "PackFmtIdx_q.cfg", idump)] + ([] if quick else [("idx3", "PackFmtIdx_t.cfg", idump + "3")])
+    for key, cfg, dump in iplan:
+        futs[key] = tlc_job(f"PackFmtIdx[{cfg[11:-4]}]", "PackFmtIdx.tla", cfg, 2, dump_states=dump)
     futs["git"] = tlc_job("PackFmtGit", "PackFmtGit.tla", ctx.pick("PackFmtGit_q.cfg", "PackFmtGit_t.cfg"), 1, dump_states=gdump)
     negs = [("PackFmtVarint.tla", "PackFmtVarint_neg_plain.cfg", ["Lemma"]), ("PackFmtIdx.tla", "PackFmtIdx_neg_msb.cfg", ["Lemma"]),
             ("PackFmtWriter.tla", "PackFmtWriter_neg_dup.cfg", ["IdxInv"]), ("PackFmtWriter.tla", "PackFmtWriter_neg_dupscan.cfg", ["GitInv"]),
@@ -497,8 +501,8 @@ def run(ctx):
         futs["neg-" + cfg] = tlc_job(cfg[:-4], spec, path, 1)
 
     # ---------------------------------------------------------------- real code, part 1: what needs no TLC output
-    deadline = time.time() + ctx.pick(55, 16 * 60)
-    rnd = random_cases(ctx, ctx.pick(60, 1500), 500000, ctx.pick(8, 30))
+    deadline = time.time() + ctx.pick(55, 12 * 60)
+    rnd = random_cases(ctx, ctx.pick(80, 1200), 500000, ctx.pick(8, 24))
     rnd7 = [{"cid": 490000 + k, "objs": o, "have": [], "row": [7, d, 10, 0, 0, 1, -1, 2, 20], "origin": "copy"}
             for k, (o, d) in enumerate([([5, 4], 1), ([2, 3], 0), ([12, 11, 13], 1)])]
     child_futs = []
@@ -514,14 +518,12 @@ def run(ctx):
             k = max(1, min(PROCS if mode == "rs" else 4, len(mine) // 8 or 1))
             for part in split_jobs(mine, k):
                 child_futs.append(("writer", mode, pool.submit(mode, "writer", cases=part, seed=seed, deadline=deadline)))
-    submit_writer(rnd + rnd7, "random", deadline)
-
     # git scenarios (PackFmtGit is a two second run: dispatched before the long TLC runs are collected)
     name, r = futs.pop("git").result()
     ctx.add_tlc(name, r)
     gstates = list(tlc.load_state_dump(gdump + ".dump"))
     ctx.rng.shuffle(gstates)
-    gpick = gstates[:ctx.pick(40, 900)]
+    gpick = gstates[:ctx.pick(40, 600)]
     # always include the deepest chains
     deep = [g for g in gstates if g["depth"] == 50 and g["nver"] >= 60 and g["window"] == 10 and not g["thin"]][:ctx.pick(4, 24)]
     gpick = deep + [g for g in gpick if g not in deep]
@@ -534,8 +536,9 @@ def run(ctx):
         scen_state[sc["cid"]] = (sc, g)
     for mode in ("rs", "py"):
         mine = [s for s in scen if s["mode"] == mode]
-        for part in split_jobs(mine, ctx.pick(2, 4)):
-            child_futs.append(("gitpack", mode, pool.submit(mode, "gitpack", scenarios=part, seed=seed, deadline=time.time() + ctx.pick(60, 15 * 60))))
+        for part in split_jobs(mine, ctx.pick(2, 3)):
+            child_futs.append(("gitpack", mode, pool.submit(mode, "gitpack", scenarios=part, seed=seed, deadline=time.time() + ctx.pick(60, 12 * 60))))
+    submit_writer(rnd7 + rnd, "random", deadline)
 
     # ---------------------------------------------------------------- collect TLC results
     results = {}
@@ -562,9 +565,9 @@ def run(ctx):
     vfuts = [("rs" if k % 2 == 0 else "py", pool.submit("rs" if k % 2 == 0 else "py", "varint", states=p, always=always))
              for k, p in enumerate(vparts)]
     # idx states
-    istates = list(load_idx_states(idump + ".dump"))
+    istates = [st for (_k, _c, dump) in iplan for st in load_idx_states(dump + ".dump")]
     for k, s in enumerate(istates):
-        s["git"] = (k % ctx.pick(8, 4) == 0)
+        s["git"] = (k % ctx.pick(8, 16) == 0)
     ifuts = [("rs" if k % 2 == 0 else "py", pool.submit("rs" if k % 2 == 0 else "py", "idx", states=p))
              for k, p in enumerate(split_jobs(istates, 4))]
     # writer cases
@@ -589,16 +592,16 @@ def run(ctx):
         # thorough: the cases that are cheap in pure Python run in both builds
         extra = []
         for c in wcases:
-            if not heavy_for_py(c) and c["cid"] % 2 == 0:
+            if not heavy_for_py(c) and c["cid"] % 4 == 0:
                 e = dict(c, cid=c["cid"] + 1000000, mode="py")
                 extra.append(e)
         for c in wcases:
-            c["mode"] = "rs" if (heavy_for_py(c) or c["cid"] % 2 == 0) else "py"
+            c["mode"] = "rs" if (heavy_for_py(c) or c["cid"] % 4 != 1) else "py"
         wcases += extra
     ctx.log(f"{len(wcases)} writer cases emitted by TLC, {len(rnd)} random, {len(scen)} git scenarios, "
             f"{len(vstates)} varint states, {len(istates)} idx states")
     send = [{k: v for k, v in c.items() if k != "exp"} for c in wcases]
-    deadline = max(deadline, time.time() + ctx.pick(35, 13 * 60))
+    deadline = max(deadline, time.time() + ctx.pick(35, 9 * 60))
     submit_writer(send, "tlc", deadline)
     exp_of = {c["cid"]: c["exp"] for c in wcases}
 
@@ -624,10 +627,13 @@ def run(ctx):
             judge.capped(f"dulwich/pack.py:{fn}|{b['clause']}",
                          f"oid={b['oid']} n={len(b['offs'])} offsets={'+'.join(big) or 'none'} first={b['firsts']}",
                          f"{fn} on a synthetic table: {b['clause']} {b.get('exc', '')}", {"idx_state": b, "mode": imode})
+    ctx.log(f"varint and idx states replayed: {n_v} + {n_i}")
     results_w, traces, gtraces = {}, [], []
     skipped = 0
+    tdone = {}
     for kind, mode, f in child_futs:
         out = f.result()
+        tdone[kind] = round(ctx.elapsed(), 1)
         for r in out:
             if r.get("skipped"):
                 skipped += 1
@@ -638,7 +644,10 @@ def run(ctx):
             if r.get("trace") is not None:
                 (traces if kind == "writer" else gtraces).append(r["trace"])
     judge.stats["skipped"] = skipped
-    ctx.log(f"real code done: {len(results_w)} executions, {skipped} skipped (time budget); validating {len(traces) + len(gtraces)} traces with TLC")
+    slow = sorted(((r.get("ms") or [0, 0])[1], cidk) for cidk, (kind, mode, r) in results_w.items() if kind == "writer")[-3:]
+    ctx.cov["slowest_writer_cases_ms"] = [{"ms": results_w[c][2].get("ms"), "build": results_w[c][1], "objs": mode_of[c]["objs"], "row": mode_of[c]["row"]}
+                                          for (_ms, c) in reversed(slow)]
+    ctx.log(f"real code done {tdone}: {len(results_w)} executions, {skipped} skipped (time budget); validating {len(traces) + len(gtraces)} traces with TLC")
     verdicts = validate_traces(ctx, slots, traces, "dw")
     verdicts.update(validate_traces(ctx, slots, gtraces, "git"))
     for cidk in sorted(results_w):
